@@ -57,6 +57,9 @@ func runArithCmd(args []string) {
 			c.P = 0
 		}
 		k := uint64(1 + r.Intn(8))
+		if c.P > 1<<40 && r.Chance(60) {
+			k = 1
+		}
 		c.W = c.P * k
 		if r.Chance(10) {
 			c.W = uint64(r.Intn(40))
